@@ -38,7 +38,7 @@ JudgeVariant(c, v) ==
       KOnly(sq) == SelectSeq(sq, LAMBDA x : x[1] = "K")
       COnly(sq) == SelectSeq(sq, LAMBDA x : x[1] = "C")
       cbv == CbValues(want)
-      onceOk == IF v[1] = "embedded"
+      onceOk == IF v[1] \in {"embedded", "embedded-Transformer_NonRecursive", "embedded-Transformer_InPlace", "embedded-Transformer_InPlaceRecursive"}
                 THEN SameBag(COnly(log), COnly(cbv)) /\ \A x \in SetOf(KOnly(cbv)) : Count(log, x) >= Count(cbv, x)
                 ELSE SameBag(log, cbv)
   IN IF v[2] # want THEN v[1] \o ":result-is-not-the-fold-of-the-callbacks-over-the-tree"
